@@ -19,7 +19,7 @@ META = {
                   "point lies in its leaf's box, query returns min(k,n) distinct indices in non-decreasing distance none of "
                   "which is farther than any index left out, query_radius returns exactly the indices within the radius. "
                   "Leaf test, split predicate, degenerate-split fallback, axis cycling, box update, box excess, both prune "
-                  "predicates, the eviction test, the result order and the PriorityItem comparator / PriorityQueue plumbing are regenerated from the source on every run; the "
+                  "predicates, the eviction test, the result order, whether the constructor copies its input, and the PriorityItem comparator / PriorityQueue plumbing are regenerated from the source on every run; the "
                   "loops are tied by kernel-evaluated correspondence batches (whole node array, query answers). LIMIT: arithmetic is "
                   "exact (integers, squared distances); the implementation orders by binary64 sqrt distances, so points whose true "
                   "distances differ by less than rounding resolution are ties for it (tested, not proved: a rounding class with "
@@ -135,7 +135,16 @@ def gen_case(rng, maxn=24):
             "dtype": "int" if rng.random() < 0.15 else "float", "knn": knn, "rad": rad, "style": style}
     if rng.random() < 0.35:
         case["ambient"] = gen_ambient(rng)
+    add_container(rng, case)
     return case
+
+
+def add_container(rng, case):
+    """The form in which the caller hands the points over, and (ndarray forms, 40%) what it does with its array afterwards:
+    overwrite it and build a second tree from it before the first tree is queried."""
+    case["container"] = "int" if case.get("dtype") == "int" else rng.choice(["list", "tuple", "float", "float", "int", "fortran", "view"])
+    if case["container"] not in ("list", "tuple") and case["pts"] and rng.random() < 0.4:
+        case["mutate"] = rng.choice(["reverse", "shift", "row"])
 
 
 def gen_ambient(rng):
@@ -181,7 +190,8 @@ def gen_float_case(rng):
         Q = qp()
         rad.append([Q, max(0, d2(rng.choice(pts), Q) + rng.choice([0, 0, -1, 1, rng.randint(-40, 40)]))])
     return {"dim": d, "pts": pts, "mls": rng.choice([1, 1, 2, 3]), "strategy": rng.choice(["balanced", "fast", "random"]),
-            "seed": rng.randint(0, 2 ** 31 - 1), "dtype": "float", "knn": knn, "rad": rad, "style": "bigfloat", "float_only": True}
+            "seed": rng.randint(0, 2 ** 31 - 1), "dtype": "float", "knn": knn, "rad": rad, "style": "bigfloat", "float_only": True,
+            "container": rng.choice(["list", "float", "fortran", "view"])}
 
 
 TOL_BITS = 46      # two squared distances closer than 2^-46 (relative) are not distinguished by the tolerant oracle
@@ -281,6 +291,9 @@ def oracle(case, obs):
         if sorted(ans) != want:
             return ("radius-set", "query_radius(%s/2, sqrt(%d)/2) returned %s, the points within the radius are %s"
                     % (Q, m, sorted(ans), want))
+    if obs.get("input_modified_by_build") or obs.get("input_modified_by_query"):
+        return ("caller-array-modified", "the caller's point array was modified by %s"
+                % ("the constructor" if obs.get("input_modified_by_build") else "a query"))
     if case.get("ambient"):
         want = [sorted([[x, float(w)] for x, w in items], key=repr) for items in case["ambient"]]
         if obs.get("ambient_after") != want:
@@ -309,7 +322,9 @@ def classify(case, kind):
     return "/".join([kind, "strategy=" + case["strategy"], "leaf=%d" % case["mls"], "dim=%d" % case["dim"],
                      "duplicates" if len(set(pts)) < len(pts) else "distinct",
                      "ambient-queues" if case.get("ambient") else "no-ambient",
-                     "bigfloat" if case.get("float_only") else "small-int"])
+                     "bigfloat" if case.get("float_only") else "small-int",
+                     "container=" + str(case.get("container", "float")),
+                     "caller-overwrites-array(%s)" % case["mutate"] if case.get("mutate") else "array-untouched"])
 
 
 def run_one(case, timeout=3.0):
@@ -335,6 +350,11 @@ def shrink(case, key, budget=30.0):
             if cand_amb != cur["ambient"] and fails(cand):
                 cur = cand
                 break
+    if cur.get("mutate"):
+        cand = dict(cur)
+        cand.pop("mutate")
+        if fails(cand):
+            cur = cand
     # keep only one failing query
     for fld in ("knn", "rad"):
         for keep in ([], ) + tuple([x] for x in cur[fld]):
@@ -403,8 +423,9 @@ def case_term(case, obs):
     pts = coq_list([zlistp([2 * c for c in p]) for p in case["pts"]])
     knn = coq_list(["(%s, %d%%nat, %s)" % (zlistp(Q), k, natlist(ans)) for (Q, k), ans in zip(case["knn"], obs["knn"])])
     rad = coq_list(["(%s, %s, %s)" % (zlistp(Q), zl(m), natlist(ans)) for (Q, m), ans in zip(case["rad"], obs["rad"])])
-    return "(mkcase %d%%nat %d%%nat %s %s %s %s %s)" % (
-        case["dim"], case["mls"], pts, zlistp(obs["pivots"]), coq_list([node_term(nd) for nd in obs["nodes"]]), knn, rad)
+    now = coq_list([zlistp(p) for p in obs["now"]])
+    return "(mkcase %d%%nat %d%%nat %s %s %s %s %s %s)" % (
+        case["dim"], case["mls"], pts, now, zlistp(obs["pivots"]), coq_list([node_term(nd) for nd in obs["nodes"]]), knn, rad)
 
 
 def encodable(obs):
@@ -436,7 +457,10 @@ def run(ctx):
                 "fast / random with seeded numpy RNG; per case 3 kNN queries (k in 1..n+2, query on / near / far from the data) "
                 "and 2 radius queries (radius 0, a data point exactly on the sphere, random); in 35% of the cases one or two other "
                 "mouette PriorityQueue objects with pending items (negative / positive priorities) are alive during build and queries "
-                "and must be left unchanged. Plus a rounding class (200 quick / 4000 thorough cases, oracle only): "
+                "and must be left unchanged; the points are handed over as list / tuple / float ndarray / int ndarray / Fortran-ordered / "
+                "non-contiguous view, and in 40% of the ndarray cases the caller overwrites its array after construction and builds a "
+                "second tree from it before the first tree is queried (answers judged against the points at construction; the "
+                "caller's array must never be modified by build or query). Plus a rounding class (200 quick / 4000 thorough cases, oracle only): "
                 "coordinates 2^20..2^40 + (-3..3), queries far away, so that distinct true distances collide in binary64. Non-trivial = the build splits "
                 "at least once (n > leaf size); distinct = by canonical JSON of the case")
     ctx.assumptions += [
@@ -502,8 +526,11 @@ def run(ctx):
                 ctx.count("cases with a degenerate (rank) split")
         if c.get("ambient"):
             ctx.count("cases with ambient PriorityQueue objects alive")
-        ctx.case_seen([c["dim"], c["pts"], c["mls"], c["strategy"], c["seed"], c["knn"], c["rad"], c.get("ambient")], nontrivial=n > c["mls"],
-                      sample={"case": {k: c[k] for k in ("dim", "pts", "mls", "strategy", "knn", "rad", "ambient") if k in c}, "observed": o}
+        ctx.count("container=" + str(o.get("container", c.get("container", "float"))))
+        if c.get("mutate") and o.get("now") is not None and o["now"] != [[2 * x for x in p] for p in c["pts"]]:
+            ctx.count("cases where the caller overwrote its array after construction (second tree built from it)")
+        ctx.case_seen([c["dim"], c["pts"], c["mls"], c["strategy"], c["seed"], c["knn"], c["rad"], c.get("ambient"), c.get("container"), c.get("mutate")], nontrivial=n > c["mls"],
+                      sample={"case": {k: c[k] for k in ("dim", "pts", "mls", "strategy", "knn", "rad", "ambient", "container", "mutate") if k in c}, "observed": o}
                       if 3 < n < 9 else None)
         m = oracle(c, o)
         if m:
